@@ -198,6 +198,9 @@ def single_assembly(rng, tdep=None, gap=None, lf=None, regions=None,
         spec['zero_cells'] = [int(rng.integers(nc))]
     if nc > 1 and 1 in comps and len(comps) > 1 and rng.random() < 0.3:
         spec['zero_pin_cells'] = [int(rng.integers(nc))]
+        if len(set(spec['zero_pin_cells'] + spec.get('zero_cells', []))) \
+                >= nc:
+            spec['zero_pin_cells'] = []    # keep one powered pin cell
     gen.add_position(P, 'a', 1, 1, velocity=v, dT=dT, shape=shape,
                      bc=(bc or 'flowrate'), **spec)
     feats['coolant'] = P['coolant']
